@@ -21,6 +21,9 @@ def _work(item):
         _, cfgs, props, max_exec, max_dev = item
         outs = [e3.explore_config_e3((c, props, max_exec, max_dev)) for c in cfgs]
         return ('e3', outs)
+    if kind == 'barrier':
+        from . import e4b
+        return ('barrier', [dict(e4b.barrier_case(item[1]), case=[list(map(str, item[1][1])), item[1][2], item[1][3]])])
     if kind == 'hash':
         from . import hashseed
         _, prop_, fam, seed_ = item
@@ -40,6 +43,15 @@ def _work(item):
                     viols.append(Violation(prop=p, key=f'serial:{key}', what=f'[real SerialRunner] {msg} | cfg={cfg.brief()}',
                                            replay={'engine': 'serial', 'cfg': cfg.to_json(), 'prop': p, 'clause': key},
                                            size=cfg.spec.n * 100))
+            if not viols and cfg.spec.n > 1:
+                # the very same task objects after an earlier complete run
+                obs3 = run_once_serial(cfg, warm_objects=True)
+                for p in props:
+                    for key, msg in e2.ORACLES[p](obs3):
+                        viols.append(Violation(prop=p, key=f'serial:reused-task-objects:{key}',
+                                               what=f'[real SerialRunner, task objects that already went through an earlier run_tasks call] {msg} | cfg={cfg.brief()}',
+                                               replay={'engine': 'serial', 'cfg': cfg.to_json(), 'prop': p, 'clause': key, 'warm': True},
+                                               size=cfg.spec.n * 100 + 60))
             if not viols and cfg.spec.n > 1:
                 # the same configuration from a non-initial state (an earlier aborted run in this process)
                 obs2 = run_once_serial(cfg, prelude=True)
@@ -65,7 +77,7 @@ def chunks(seq: list, size: int):
 
 def run_e2_property(prop: str, tier: str, seed: int, configs: Iterable, *, serial_configs: Iterable = (),
                     e3_configs: Iterable = (), e3_max_exec: Optional[int] = 20000, e3_max_dev: Optional[int] = None,
-                    real_cases: Iterable = (), hash_slices: Iterable = (),
+                    real_cases: Iterable = (), hash_slices: Iterable = (), barrier_cases: Iterable = (),
                     props: Optional[Sequence[str]] = None, max_exec_per_cfg: Optional[int] = None,
                     rule: str = '', assumptions: Sequence[str] = (), chunk: int = 40,
                     extra_cov: Optional[dict] = None) -> Result:
@@ -85,6 +97,8 @@ def run_e2_property(prop: str, tier: str, seed: int, configs: Iterable, *, seria
     items = [('hash', prop, fam, sd) for fam, sd in hash_slices] + items
     hash_exec = 0
     hash_done = []
+    items = [('barrier', c) for c in barrier_cases] + items
+    barrier_runs = barrier_rests = barrier_max = 0
     executions = states = transitions = 0
     n_cfg = 0
     capped = 0
@@ -115,6 +129,16 @@ def run_e2_property(prop: str, tier: str, seed: int, configs: Iterable, *, seria
                     busiest = {'cfg': o['cfg'], 'executions': o['executions'], 'states': o['states']}
                 if len(samples) < 4 and o['executions'] > 1:
                     samples.append({'cfg': o['cfg'], 'schedules_explored': o['executions'], 'states': o['states']})
+        elif kind == 'barrier':
+            for o in outs:
+                barrier_runs += 1
+                barrier_rests += o['rest_points']
+                barrier_max = max(barrier_max, o['max_inside'])
+                for p, key, msg in o['viols']:
+                    if p == prop:
+                        viols.append(Violation(prop=p, key=key, what=msg, replay={'engine': 'barrier', 'case': o['case']}, size=700))
+                if barrier_runs <= 1:
+                    samples.append({'real_barrier_run': o['case'], 'release_order': o['released'], 'max_tasks_inside_run': o['max_inside']})
         elif kind == 'hash':
             for o in outs:
                 hash_exec += o['executions']
@@ -154,13 +178,16 @@ def run_e2_property(prop: str, tier: str, seed: int, configs: Iterable, *, seria
         'states': states,
         'transitions': transitions,
         'traces_validated_against_impl': validated + real_validated,
+        'real_barrier_runs': barrier_runs,
+        'real_rest_points_observed': barrier_rests,
+        'real_max_tasks_inside_run': barrier_max,
         'hash_seed_slices': hash_done,
         'executions_in_other_hash_seeds': hash_exec,
         'real_fork_spawn_runs': real_runs,
         'real_fork_spawn_traces_accepted_by_model': real_validated,
         'real_max_concurrency_observed': real_maxc,
         'samples': samples,
-        'evaluations': executions + serial_runs + hash_exec + real_runs,
+        'evaluations': executions + serial_runs + hash_exec + real_runs + barrier_runs,
         'distinct_nontrivial': n_cfg,
         'rule': rule or 'one evaluation = one complete run_tasks execution under one choice sequence; '
                         'distinct_nontrivial = distinct configurations (DAG x request x pre-cache x faults) explored',
@@ -187,7 +214,7 @@ def replay(payload: dict) -> int:
     silence_labtech()
     if payload.get('engine') == 'serial':
         cfg = e2.Config.from_json(payload['cfg'])
-        obs = run_once_serial(cfg, prelude=bool(payload.get('prelude')))
+        obs = run_once_serial(cfg, prelude=bool(payload.get('prelude')), warm_objects=bool(payload.get('warm')))
         found = e2.ORACLES[payload['prop']](obs)
         print('config:', cfg.brief())
         for ev in obs.events:
